@@ -764,6 +764,112 @@ def do_case(ctx, mods, work, case, with_prepare):
     return obs, obs_prep, failed
 
 
+def _report(ctx, sig, what, replay):
+    """one concrete input per signature (the framework keeps few entries); every occurrence is counted"""
+    ctx.hit("property-fails:" + sig)
+    done = ctx.extra.setdefault("_reported", [])
+    if sig not in done:
+        done.append(sig)
+        ctx.fail(sig, what, replay)
+
+
+def run_chain(ctx, mods, work, case):
+    """repeated kicks: `len(case['chain_z'])` consecutive modify_velocities calls on the SAME engine object and
+    the SAME System (each call regenerates from the frame the previous call wrote: system.config =
+    (exe_dir/genvel.<ext>, 0) while that file's content changes).  After EVERY call, against the frame the system
+    pointed to BEFORE the call (read here with the independent parser):
+      dek == kin_new − E_kin(that frame's velocities) (GROMACS: − system.ekin before the call), inf when zero/None;
+      kin_new == E_kin(written velocities); positions/box/ids of genvel == that frame's; Σ m v = 0 when requested;
+      the original source file's bytes unchanged.  Returns the failed signatures."""
+    eng, n = case["engine"], case["n"]
+    failed = []
+    rep = {"case": {k: v for k, v in case.items() if not k.startswith("_")}}
+
+    def fail(sig, what):
+        failed.append(sig)
+        _report(ctx, sig, what, rep)
+
+    try:
+        e = build_engine(mods, work, case)
+    except Exception as ex:  # noqa: BLE001
+        fail(f"C16:{eng}:raises", f"engine construction raised {err_kind(ex)}: {ex}")
+        return failed
+    src = work / f"src_{eng}.{EXT[eng]}"
+    write_source(case, src)
+    src_bytes = src.read_bytes()
+    sysm = mods["System"]()
+    sysm.set_pos((str(src), 0 if eng == "gromacs" else case["idx"]))
+    sysm.ekin = case["sys_ekin"]
+    vs = {} if case["zm"] is None else {"zero_momentum": case["zm"]}
+    zm_on = case["zm"] if case["zm"] is not None else (eng == "cp2k")
+    tol = written_abs_tol(eng)
+    prev = source_frame(case)
+    for k, z in enumerate(case["chain_z"]):
+        tag = f"call {k + 1} of {len(case['chain_z'])} on the same engine and System"
+        if k > 0:      # what the system points to now, read independently before the call
+            prev = parse_frame(eng, sysm.config[0], n)
+        ekin_before = sysm.ekin
+        gen = ScriptedGen(np.array(z, dtype=float))
+        e.rgen = gen
+        try:
+            with GlobalTap(np.array(z, dtype=float), gen.log):
+                dek, kin_new = e.modify_velocities(sysm, vs)
+        except Exception as ex:  # noqa: BLE001
+            fail(f"C16:{eng}:raises", f"{tag}: modify_velocities raised {err_kind(ex)}: {str(ex)[:160]}")
+            return failed
+        dek, kin_new = float(dek), float(kin_new)
+        g = parse_frame(eng, sysm.config[0], n)
+        m = getattr(e, "masses", None) if eng == "gromacs" else getattr(e, "mass", None)
+        masses = np.array(case["masses"] if m is None else m, dtype=float).reshape(-1, 1)
+        if g["ids"] != prev["ids"]:
+            fail(f"C16:{eng}:ids-changed", f"{tag}: identities {g['ids']} ≠ those of the frame it was taken from {prev['ids']}")
+        if g["pos"].shape != prev["pos"].shape or not np.array_equal(g["pos"], prev["pos"]):
+            fail(f"C16:{eng}:positions-changed", f"{tag}: positions {g['pos'].tolist()} ≠ those of the frame it was "
+                 f"taken from {prev['pos'].tolist()}")
+        if prev["box"] is not None and g["box"] != prev["box"]:
+            fail(f"C16:{eng}:box-changed", f"{tag}: box {g['box']} ≠ {prev['box']}")
+        if src.read_bytes() != src_bytes:
+            fail(f"C16:{eng}:source-file-altered", f"{tag}: the original source trajectory file was modified")
+        v = g["vel"]
+        ekin_file = 0.5 * float((masses * v * v).sum())
+        etol = (1e-9 * abs(ekin_file) + tol * float((masses * np.abs(v)).sum()) + tol * tol * float(masses.sum()) * 3
+                + 1e-300)
+        if abs(kin_new - ekin_file) > etol:
+            fail(f"C16:{eng}:kin-new-inconsistent", f"{tag}: returned kin_new {kin_new!r} but the written velocities "
+                 f"carry {ekin_file!r}")
+        pv = prev["vel"] if np.size(prev["vel"]) else np.zeros_like(prev["pos"])
+        old = ekin_before if eng == "gromacs" else 0.5 * float((masses * pv ** 2).sum())
+        want = math.inf if (old is None or (eng != "gromacs" and old == 0.0)) else ekin_file - old
+        if math.isinf(want) != math.isinf(dek) or (not math.isinf(want) and abs(dek - want) > etol + 1e-9 * abs(old)):
+            fail(f"C16:{eng}:dek-inconsistent", f"{tag}: dek {dek!r}, but kinetic energy of the written velocities minus "
+                 f"that of the frame the system pointed to before the call is {want!r}")
+        if zm_on:
+            mom = (v * masses).sum(axis=0)
+            zabs = np.abs(np.array(z, dtype=float))
+            sdv = np.array([math.sqrt(float(kT_units(eng, case["T"], m_))) for m_ in masses_as_given(case)]).reshape(-1, 1)
+            scale = float(np.abs(v * masses).sum()) + float((masses * sdv * zabs).sum()) + 1e-300
+            if np.any(np.abs(mom) > 1e-9 * scale + tol * float(masses.sum())):
+                fail(f"C16:{eng}:momentum-not-zero", f"{tag}: total momentum {mom.tolist()} with zero_momentum on")
+        if len(gen.log) != 1 or gen.log[0]["stream"] != "rgen":
+            fail(f"C16:{eng}:global-rng" if any(l["stream"] != "rgen" for l in gen.log) else f"C16:{eng}:draw-count",
+                 f"{tag}: draw requests {[(l['stream'], l['method']) for l in gen.log]}")
+    return failed
+
+
+def chain_cases(ctx):
+    rng = ctx.rng
+    out = []
+    for eng in ENGINES:
+        for zm in (None, False, True):
+            for rep in range(1 if ctx.quick else 4):
+                n = rng.choice((2, 3, 5))
+                T = rng.choice((300, 77.5, 1000))
+                c = gen_case(rng, eng, n, T, zm, "chain")
+                c["chain_z"] = [[[rng.gauss(0, 1) for _ in range(3)] for _ in range(n)] for _ in range(rng.randint(4, 6))]
+                out.append(c)
+    return out
+
+
 def reproducibility(ctx, mods, work, case):
     """same engine.rgen state twice ⇒ same written velocities (real numpy generators)"""
     eng = case["engine"]
@@ -1193,7 +1299,8 @@ def run(ctx):
     cwd = os.getcwd()
     ctx.rule = ("per engine × temperature × atom count × zero_momentum ∈ {absent, False, True}: random dyadic "
                 "positions/old velocities/box, masses from a pool or random, scripted standard normals; plus "
-                "zero-old-velocity and zero-draw cases and seeded random (engine, n ≤ 8, T) cases. "
+                "zero-old-velocity and zero-draw cases and seeded random (engine, n ≤ 8, T) cases; chains of 4–6 consecutive "
+                "regenerations on one engine object and one System per engine × zero_momentum. "
                 "Non-trivial = non-zero draw; distinct by (engine, T, n, zm, masses, z).")
     try:
         os.chdir(work)
@@ -1234,6 +1341,11 @@ def run(ctx):
                             "kin_new": None if obs.get("err") else obs["kin_new"],
                             "request": None if obs.get("err") or not obs["log"] else
                             [obs["log"][0]["stream"], obs["log"][0]["method"]]})
+        # chained regenerations (repeated kicks) on one engine object and one System
+        for c in chain_cases(ctx):
+            run_chain(ctx, mods, work, c)
+            ctx.count(len(c["chain_z"]), branch="chain")
+            ctx.hit(f"chain_len={len(c['chain_z'])}")
         for spot, vs in seen_variants.items():
             if len(vs) > 1:
                 ctx.disagree({"fn": f"ase variant spot {spot}"}, sorted(vs), "one variant consistently")
@@ -1288,7 +1400,10 @@ def replay(ctx, obj):
             ok = reproducibility(ctx, mods, work, case)
             print("same rgen state ⇒ same velocities:", ok)
             return 0 if ok else 1
-        obs, obs_prep, failed = do_case(ctx, mods, work, case, True)
+        if "chain_z" in case:
+            failed = run_chain(ctx, mods, work, case)
+        else:
+            obs, obs_prep, failed = do_case(ctx, mods, work, case, True)
         print("signatures failing now:", sorted(set(failed)), "| recorded:", obj.get("signature"))
         return 1 if obj.get("signature") in failed or (failed and obj.get("signature") is None) else 0
     finally:
